@@ -14,7 +14,8 @@ Trace == ndJsonDeserialize(IOEnv.TRACE_FILE)
 VARIABLES l, streams, handler, delivered, outAll, dead
 vars == <<l, streams, handler, delivered, outAll, dead>>
 
-AllLegal(frames) == \A i \in DOMAIN frames : FrameClass(frames[i]) = "legal"
+\* every frame of the stream has a reply the statements determine (legal, unsupported function, out of range)
+AllLegal(frames) == \A i \in DOMAIN frames : Answerable(frames[i])
 
 RECURSIVE TotalBytes(_)
 TotalBytes(frames) == IF frames = <<>> THEN 0 ELSE Len(Head(frames)) + TotalBytes(Tail(frames))
